@@ -7,7 +7,7 @@ import re
 from .. import calg
 from ..pymodel import package
 from ..ratemodel import model as ratemodel, SELF
-from ..valueflow import Flow, show, simp, walk
+from ..valueflow import Flow, show, simp, subst, walk
 
 EXPLANATION = (
     "Over every variant (dispatch arm x truthiness of the optional beta/gamma factors x shielding sub-branch) of rateexpr in Reaction, "
@@ -246,7 +246,8 @@ def _r1(ctx, rm, pkg, allv):
     params = [a.arg for a in fn.args.args][1:]
     chain, base = [], None
     if len(rets) == 1 and rets[0].value is not None:
-        v = simp(rets[0].value)
+        # (a table read through self/cls is the class-level display it is bound to; a fold over it -- functools.reduce -- is unfolded by simp)
+        v = simp(subst(simp(rets[0].value), rm.class_consts("Reaction")))
         while v[0] == "meth" and v[2] == "replace" and len(v[3]) == 2 and not v[4] and all(a[0] == "const" and isinstance(a[1], str) for a in v[3]):
             chain.append((v[3][0][1], v[3][1][1]))
             v = v[1]
